@@ -97,7 +97,7 @@ def tlc(module, cfg, wd, workers=8, xmx="6g", timeout=900, env=None, simulate=No
         deque=False, xss=None, extra=None):
     """Run TLC on spec/<module>.tla with spec/<cfg>; output to <wd>/<module>.out. Returns dict."""
     out_path = os.path.join(wd, "%s.%s.out" % (module, os.path.splitext(os.path.basename(cfg))[0]))
-    md = os.path.join(wd, "md_%s" % module)
+    md = os.path.join(wd, "md_%s_%s" % (module, os.path.splitext(os.path.basename(cfg))[0]))
     jopts = []
     if xss:
         jopts.append("-Xss%s" % xss)
@@ -135,6 +135,15 @@ def tlc(module, cfg, wd, workers=8, xmx="6g", timeout=900, env=None, simulate=No
     return res
 
 
+def tlc_many(module, cfgs, wd, parallel=4, **kw):
+    """Run several configurations of one module concurrently (each its own JVM, metadir and output file);
+    returns {cfg: result} in the order given."""
+    from concurrent.futures import ThreadPoolExecutor
+    with ThreadPoolExecutor(max_workers=parallel) as ex:
+        futs = [(c, ex.submit(tlc, module, c, wd, **kw)) for c in cfgs]
+        return {c: f.result() for c, f in futs}
+
+
 def tlc_must_pass(res, what):
     """The specification's own model check must succeed; otherwise it is a tool error (exit 2)."""
     if simulate_ok(res):
@@ -168,17 +177,50 @@ def printed(out_path, tag):
                     yield body
 
 
-def edges_to_file(out_path, dest, tag="E", limit=None, rng_seed=None):
-    """Extract printed JSON edges into an NDJSON file; optional deterministic sampling."""
+def edges_to_file(out_path, dest, tag="E", limit=None, rng_seed=None, maximal=False):
+    """Extract printed JSON edges into an NDJSON file; optional deterministic sampling.
+
+    maximal=True: every printed edge is a whole schedule (the first path TLC found to the edge's source state
+    plus the edge), and the printed set is prefix-closed, so a schedule that is a proper prefix of another
+    printed schedule is replayed anyway when the longer one is.  Only the maximal schedules are kept (and
+    sampled, if there are still more than `limit`); `edges_to_file.covered` is the number of printed edges
+    that are a prefix of some kept schedule, i.e. the transitions actually replayed."""
     n = 0
     lines = []
     for payload in printed(out_path, tag):
         lines.append(payload)
     total = len(lines)
-    if limit and total > limit:
+    parent = {}
+    if maximal:
+        # raw-text keys: ToJson is deterministic, so the parent schedule's line is this line minus its last
+        # element; elements are recognised by their first two field names (no nested record starts with both)
+        m0 = re.match(r'\{"hist":\[\{"([A-Za-z]+)":[^,{\[]*,"([A-Za-z]+)":', lines[0]) if lines else None
+        if not m0:
+            raise ToolError("cannot recognise the schedule elements of %s" % out_path)
+        marker = re.compile(r'\{"%s":[^,{\[]*,"%s":' % (m0.group(1), m0.group(2)))
+        for l in lines:
+            i = -1
+            for mm in marker.finditer(l):
+                i = mm.start()
+            if i < 0:
+                raise ToolError("schedule line without elements in %s" % out_path)
+            parent[l] = (l[:i - 1] if l[i - 1] == "," else l[:i]) + "]}"
+        inner = set(parent.values())
+        lines = [l for l in lines if l not in inner]
+    if limit and len(lines) > limit:
         import random
         r = random.Random(rng_seed if rng_seed is not None else 1)
         lines = r.sample(lines, limit)
+    covered = len(lines)
+    if maximal:
+        seen = set()
+        for l in lines:
+            k = l
+            while k in parent and k not in seen:
+                seen.add(k)
+                k = parent[k]
+        covered = len(seen)
+    edges_to_file.covered = covered
     with open(dest, "w") as f:
         for l in lines:
             f.write(l + "\n")
